@@ -172,7 +172,17 @@ def fixed_probes():
             g.mcall(g.mcall(one_two, 'select', arrow(g.call('let', **{n: X}), g.bn('+', v(n), c(1)))), 'toList'),
             arrow(g.call('let', **{n: c(1)}), arrow(g.call('let', **{n: g.bn('+', v(n), c(1))}), v(n))),
         ]
-    return hostile + [
+    # a def-ined function is a function: methods of the same name (and library functions called as methods) are still there
+    shadow = [
+        arrow(g.call('def', g.kwd('len'), c(42)), g.lst(g.call('len'), g.mcall(g.lst(c(1), c(2), c(3)), 'len'))),
+        arrow(g.call('def', g.kwd('select'), g.bn('+', X, c(1))), g.mcall(g.mcall(one_two, 'select', g.call('select', X)), 'toList')),
+        arrow(g.call('def', g.kwd('sum'), g.bn('+', v('1'), v('2'))), g.lst(g.call('sum', c(3), c(4)), g.mcall(one_two, 'sum'))),
+        arrow(g.call('def', g.kwd('len'), c(0)), g.mcall(g.mcall(g.lst(g.lst(c(1)), g.lst(c(1), c(2)), g.lst()), 'select', g.mcall(X, 'len')), 'toList')),
+        arrow(g.call('def', g.kwd('f'), g.bn('+', X, c(1))), g.mcall(c(5), 'f')),
+        arrow(g.call('def', g.kwd('len'), c(42)), g.call('len', one_two)),
+        arrow(g.call('def', g.kwd('first'), c(7)), arrow(g.call('let', x=one_two), g.lst(g.call('first'), g.mcall(v('x'), 'first'), g.mcall(v('x'), 'last')))),
+    ]
+    return hostile + shadow + [
         arrow(g.call('let', x=c(1)), arrow(g.call('def', g.kwd('f'), v('x')), arrow(g.call('let', x=c(5)), g.call('f')))),
         g.mcall(one_two, 'aggregate', g.lst(v('1'), v('2'), g.mcall(g.mcall(g.lst(c(7)), 'select', v('2')), 'toList'))),
         arrow(g.call('let', x=c(1)), g.lst(arrow(g.call('let', x=c(2)), v('x')), v('x'))),
